@@ -13,12 +13,15 @@ use std::{
 use tokio::sync::{OwnedSemaphorePermit, Semaphore, mpsc, oneshot};
 
 use super::{
-    PortReq,
+    PortReq, PortsExhausted,
     port_allocator::{PortAllocator, PortNumber},
     receiver::Receiver,
     sender::Sender,
 };
-use crate::{exec, exec::task::JoinHandle};
+use crate::{
+    exec,
+    exec::{task::JoinHandle, time::timeout},
+};
 
 /// An error occurred during connecting to a remote service.
 #[derive(Debug, Clone)]
@@ -164,6 +167,7 @@ pub struct Client {
     tx: mpsc::UnboundedSender<ConnectRequest>,
     crediter: ConnectRequestCrediter,
     port_allocator: PortAllocator,
+    ports_exhausted: PortsExhausted,
     listener_dropped: Arc<AtomicBool>,
     terminate_tx: mpsc::UnboundedSender<()>,
 }
@@ -177,12 +181,14 @@ impl fmt::Debug for Client {
 impl Client {
     pub(crate) fn new(
         tx: mpsc::UnboundedSender<ConnectRequest>, limit: u16, port_allocator: PortAllocator,
-        listener_dropped: Arc<AtomicBool>, terminate_tx: mpsc::UnboundedSender<()>,
+        ports_exhausted: PortsExhausted, listener_dropped: Arc<AtomicBool>,
+        terminate_tx: mpsc::UnboundedSender<()>,
     ) -> Client {
         Client {
             tx,
             crediter: ConnectRequestCrediter::new(limit),
             port_allocator,
+            ports_exhausted,
             listener_dropped,
             terminate_tx,
         }
@@ -195,9 +201,27 @@ impl Client {
 
     /// Connects to a newly allocated remote port from a newly allocated local port.
     ///
-    /// This function waits until a local and remote port become available.
+    /// When ports are exhausted, this function behaves as configured by
+    /// [Cfg::ports_exhausted](super::Cfg::ports_exhausted): it fails immediately, waits until a local
+    /// and remote port become available, or waits for them with a time limit.
     pub async fn connect(&self) -> Result<(Sender, Receiver), ConnectError> {
-        self.connect_ext(None, true).await?.await
+        // Apply the configured default behavior for exhausted ports.
+        let connect = match self.ports_exhausted {
+            PortsExhausted::Fail => self.connect_ext(None, false).await?,
+            PortsExhausted::Wait(None) => self.connect_ext(None, true).await?,
+            PortsExhausted::Wait(Some(duration)) => match timeout(duration, self.connect_ext(None, true)).await {
+                Ok(connect) => connect?,
+                Err(_) => {
+                    // Report what we have been waiting for.
+                    return Err(if self.port_allocator.try_allocate().is_none() {
+                        ConnectError::LocalPortsExhausted
+                    } else {
+                        ConnectError::TooManyPendingConnectionRequests
+                    });
+                }
+            },
+        };
+        connect.await
     }
 
     /// Start opening a new port to the remote endpoint with extended options.
